@@ -408,10 +408,11 @@ fn operator_cases(acc: &mut Acc, g: &mut SplitMix, base: &SplitMix) {
 }
 
 /// real ec-core selectors, erased vs concrete (no model): same individual, same error text, same stream
-fn real_selector_oracle(acc: &mut Acc, g: &mut SplitMix, base: &SplitMix) {
+fn real_selector_oracle(acc: &mut Acc, g: &mut SplitMix, base: &SplitMix, forced: Option<u64>) {
     type RI = EcIndividual<u64, TestResults<Score<i64>>>;
     type RP = Vec<RI>;
-    let n = match g.below(5) { 0 => 0, 1 => 1, _ => 2 + g.below(6) };
+    // now and then a large population (a size-dependent strategy behind the erased form must still forward the call)
+    let n = match forced { Some(n) => n, None => match g.below(5) { 0 => 0, 1 => 1, _ => 2 + g.below(6) } };
     let pop: RP = (0..n).map(|j| { let v = g.below(4) as i64; EcIndividual::new(j, TestResults { results: vec![Score(v)], total_result: Score(v) }) }).collect();
     fn call<S: Selector<Vec<EcIndividual<u64, TestResults<Score<i64>>>>>>(s: &S, pop: &Vec<EcIndividual<u64, TestResults<Score<i64>>>>, base: &SplitMix, disp: &dyn Fn(&S::Error) -> String) -> (String, u64) {
         let mut rng = base.clone();
@@ -521,7 +522,8 @@ pub fn run(cfg: &Cfg) -> Report {
             2 => recombinator_cases(&mut acc, &mut g, &base),
             3 => operator_cases(&mut acc, &mut g, &base),
             4 => childmaker_cases(&mut acc, &mut g, &base),
-            _ => real_selector_oracle(&mut acc, &mut g, &base),
+            // every few cases a large population (a size-dependent strategy behind the erased form must still forward the call)
+            _ => real_selector_oracle(&mut acc, &mut g, &base, if (i / 6) % 10 == 3 { Some([1000u64, 4097, 8192, 8193, 20_000, 70_001, 300_007, 1_048_577][((i / 60) % 8) as usize]) } else { None }),
         }
     });
     zero_sized_cases(&mut rep, seed);
@@ -531,15 +533,25 @@ pub fn run(cfg: &Cfg) -> Report {
     let mut compiled: Vec<(&'static str, u8)> = Vec::new();
     each_flavour!(compiled, || ProbeMut { id: 1, d: 0 }, [DynMutator<V, ProbeErr>], |p| { let _ = &p; 0u8 });
     let compiled: Vec<String> = compiled.into_iter().map(|(f, _)| f.to_string()).collect();
+    // The Lean model's inventory against what this harness builds and exercises (both ours): must agree exactly.
+    if model != compiled {
+        rep.disagree(json!({"case": "flavour inventory", "impl": model, "compiled": compiled,
+            "what": "the pointer flavours of the Lean model differ from the ones the harness exercises"}));
+    }
+    // The proc-macro's own tables are read from its source text as a cross-check.  That read depends on how the
+    // source is written (a harmless rewrite of the tables must not raise an alarm), so failing to read them is a
+    // note; a flavour that is generated but not exercised is reported (the property is then not shown for it);
+    // a flavour that is exercised but no longer generated does not compile and is reported by the build.
     match macro_inventory() {
         Ok(src) => {
             rep.notes.push(format!("flavour inventory: {} in the proc-macro source, {} in the Lean model, {} compiled and exercised per trait", src.len(), model.len(), compiled.len()));
-            if src != model || src != compiled {
-                rep.disagree(json!({"case": "flavour inventory", "macro_source": src, "impl": model, "compiled": compiled,
-                    "what": "the set/order of pointer flavours generated by dyn_ref_impls differs from the model or from what the harness exercises"}));
+            let missing: Vec<&String> = src.iter().filter(|f| !compiled.contains(f)).collect();
+            if !missing.is_empty() {
+                rep.disagree(json!({"case": "flavour inventory", "macro_source": src, "impl": model, "compiled": compiled, "not_exercised": missing,
+                    "what": "dyn_ref_impls generates pointer flavours that neither the model nor the harness covers"}));
             }
         }
-        Err(e) => rep.disagree(json!({"case": "flavour inventory", "what": format!("cannot read the flavour tables from the proc-macro source: {e}")})),
+        Err(e) => rep.notes.push(format!("flavour inventory: the proc-macro's tables could not be read from its source text ({e}); inventory = the {} flavours that compile and are exercised, {} in the Lean model", compiled.len(), model.len())),
     }
     rep.exhaustive = true;
     rep.notes.push("exhaustive over: 5 traits x 28 flavours x 3 erased error types x every failure position of each case; sampled: wrapped implementations (probes, 9 pipeline shapes, 4 real selectors) and seeds".into());
